@@ -60,7 +60,7 @@ def main():
         # lean/LinOp/Generated files of the patched tree never disturb /verif itself or a builder working there
         vcopy = f"/tmp/vcopy/{sid}"
         os.makedirs("/tmp/vcopy", exist_ok=True)
-        sh(f"rsync -a --delete --exclude .git --exclude seeded --exclude evidence_scratch {VERIF}/ {vcopy}/")
+        sh(f"rm -rf {vcopy} && mkdir -p {vcopy} && git -C {VERIF} archive HEAD | tar -x -C {vcopy} && rsync -a {VERIF}/lean/.lake {vcopy}/lean/")  # committed /verif (HEAD) + build cache
         for p in props:
             t = time.time()
             rcc, outc = sh(f"./check {p} --tier quick", cwd=vcopy, env={"VERIF_REPO": wt}, timeout=3000)
